@@ -162,12 +162,6 @@ Definition sched1 : list actor :=
 Definition s0 := init_state 3 1.
 
 
-Ltac ex_not_deq :=
-  let a := fresh "a" in let k := fresh "k" in let r := fresh "r" in
-  let E1 := fresh "E" in let E2 := fresh "E" in let E3 := fresh "E" in
-  intros (a & k & r & E1 & E2 & E3); vm_compute in E1;
-  first [ discriminate E1 | inversion E1; subst; vm_compute in E2; discriminate E2 ].
-
 (** C05_enq_before_release: step 7 of the run clears the lock bit in thread 0's callback;
     step 5 is its enqueue *)
 Example ex_release :
@@ -177,9 +171,9 @@ Proof.
   exists (firstn 7 (trace sched1 s0)), (nth 7 (trace sched1 s0) (s0, (0%nat, ETick))),
          (skipn 8 (trace sched1 s0)).
   split; [apply split_at; vm_compute; lia|].
-  split; [exists 0%nat, (UCas1 0 1); repeat split; vm_compute; reflexivity|].
+  split; [exists 0%nat, (UCas1 0 1); vsplit|].
   split; [vm_compute; reflexivity|].
-  exists 0%nat. split; vm_compute; reflexivity.
+  exists 0%nat. vsplit.
 Qed.
 
 (** C05_not_missed: after the enqueue (step 5) thread 1 acquires the mutex; no signal yet *)
@@ -192,9 +186,9 @@ Proof.
   exists (firstn 5 (trace sched2 s0)), (nth 5 (trace sched2 s0) (s0, (0%nat, ETick))),
          (skipn 6 (trace sched2 s0)).
   split; [apply split_at; vm_compute; lia|].
-  split; [exists 0%nat; split; vm_compute; reflexivity|].
-  split; [|split; vm_compute; reflexivity].
-  vm_compute skipn. repeat constructor; ex_not_deq.
+  split; [exists 0%nat; vsplit|].
+  split; [|vsplit].
+  apply Forall_not_deq. vm_compute. reflexivity.
 Qed.
 
 (** C05_signal_deq / C05_signal_push / C05_signal_empty *)
@@ -202,17 +196,17 @@ Definition s_sig := run step (sched2 ++ [(1%nat, ECall (Signal 0))]) s0.
 Example ex_signal_deq :
   exists th, reach s_sig /\ get_thread s_sig 1 = Some th /\ main th = SigDeq 0 ASRet /\
              getq s_sig (QC 0) = [0%nat].
-Proof. eexists. split; [apply run_reach|]. repeat split; vm_compute; reflexivity. Qed.
+Proof. eexists. split; [apply run_reach|]. vsplit. Qed.
 
 Definition s_push := run step (sched2 ++ [(1%nat, ECall (Signal 0)); (1%nat, ETick)]) s0.
 Example ex_signal_push :
   exists th, reach s_push /\ get_thread s_push 1 = Some th /\ main th = SigPush 0 ASRet 0.
-Proof. eexists. split; [apply run_reach|]. split; vm_compute; reflexivity. Qed.
+Proof. eexists. split; [apply run_reach|]. vsplit. Qed.
 
 Example ex_signal_empty :
   exists th, get_thread (run step [(1%nat, ECall (Signal 0))] s0) 1 = Some th /\
              main th = SigDeq 0 ASRet /\ getq (run step [(1%nat, ECall (Signal 0))] s0) (QC 0) = [].
-Proof. eexists. repeat split; vm_compute; reflexivity. Qed.
+Proof. eexists. vsplit. Qed.
 
 (** C05_push_preceded: step 14 of the first run is the push of thread 0 by thread 1 *)
 Example ex_push :
@@ -221,7 +215,7 @@ Proof.
   exists (firstn 14 (trace sched1 s0)), (nth 14 (trace sched1 s0) (s0, (0%nat, ETick))),
          (skipn 15 (trace sched1 s0)).
   split; [apply split_at; vm_compute; lia|].
-  exists ASRet. split; vm_compute; reflexivity.
+  exists ASRet. vsplit.
 Qed.
 
 (** C05_broadcast: two waiters, thread 2 broadcasts *)
@@ -238,7 +232,7 @@ Example ex_broadcast :
     main_of (run step bticks sB1) 1 = Some (LockRead ALRet).
 Proof.
   eexists. split; [apply run_reach|]. split; [vm_compute; reflexivity|].
-  split; [apply exec_trace|]. repeat split; vm_compute; reflexivity.
+  split; [apply exec_trace|]. vsplit.
 Qed.
 
 (** C05_returns_holding: step 21 of the first run is thread 0's acquiring CAS *)
@@ -247,7 +241,7 @@ Example ex_returns :
   exists s', reach s_cas /\ step s_cas (0%nat, ETick) = Some s' /\
     main_of s_cas 0 = Some (LockCas1 ALRet 0) /\ waitpath (LockCas1 ALRet 0) = true /\
     main_of s' 0 = Some (Done 0) /\ holds s' 0 = true.
-Proof. eexists. split; [apply run_reach|]. repeat split; vm_compute; reflexivity. Qed.
+Proof. eexists. split; [apply run_reach|]. vsplit. Qed.
 
 (** C05_quiescent: thread 0 waits, nobody signals: the final state is quiescent, with thread 0
     asleep in the condition queue *)
@@ -264,10 +258,10 @@ Proof.
   assert (E : trace cbticks s_w = nth 0 (trace cbticks s_w) (s0, (0%nat, ETick)) :: skipn 1 (trace cbticks s_w))
     by (apply (split_at _ 0); vm_compute; lia).
   split; [exact E|]. split; [rewrite <- E; apply exec_trace|].
-  split; [exists 0%nat; split; vm_compute; reflexivity|].
+  split; [exists 0%nat; vsplit|].
   split; [vm_compute; lia|].
-  split; [vm_compute skipn; repeat constructor; ex_not_deq|].
+  split; [apply Forall_not_deq; vm_compute; reflexivity|].
   split; [|vm_compute; reflexivity].
-  intros t. destruct t as [|[|[|t]]]; (split; [vm_compute; reflexivity|]);
+  intros t. destruct t as [|[|[|[|t]]]]; (split; [vm_compute; reflexivity|]);
     intros i; destruct i; vm_compute; reflexivity.
 Qed.
